@@ -96,10 +96,11 @@ class Multilabel:
         return no_duplicates(vocab)
 
     def ensures(vocab, tags, result):
-        # indicator vector of the vocabulary tags present
-        return len(result) == len(vocab) and forall(len(vocab), lambda i: (
-            (result[i] == 1 and exists(len(tags), lambda k: same_tag(vocab[i], tags[k])))
-            or (result[i] == 0 and not exists(len(tags), lambda k: same_tag(vocab[i], tags[k])))))
+        # indicator vector of the vocabulary tags present (stated as separate implications: smaller obligations)
+        present = lambda i: exists(len(tags), lambda k: same_tag(vocab[i], tags[k]))
+        return (len(result) == len(vocab)
+                and forall(len(vocab), lambda i: implies(present(i), result[i] == 1))
+                and forall(len(vocab), lambda i: implies(not present(i), result[i] == 0)))
 
 
 def prediction_with(vocab, tags):
@@ -116,10 +117,11 @@ class Prediction:
 
     def ensures(vocab, tags, result):
         # each vocabulary position holds the score of the LAST predicted tag equal to that vocabulary tag, else 0
-        return len(result) == len(vocab) and forall(len(vocab), lambda i: (
-            exists(len(tags), lambda k: same_tag(vocab[i], tags[k].tag) and result[i] == as_float32(tags[k].score)
-                   and forall(k + 1, len(tags), lambda m: not same_tag(vocab[i], tags[m].tag)))
-            or (result[i] == 0 and not exists(len(tags), lambda k: same_tag(vocab[i], tags[k].tag)))))
+        hit = lambda i, k: same_tag(vocab[i], tags[k].tag)
+        return (len(result) == len(vocab)
+                and forall(len(vocab), lambda i: forall(len(tags), lambda k: implies(
+                    hit(i, k) and forall(k + 1, len(tags), lambda m: not hit(i, m)), result[i] == as_float32(tags[k].score))))
+                and forall(len(vocab), lambda i: implies(not exists(len(tags), lambda k: hit(i, k)), result[i] == 0)))
 
 
 def as_float32(x):
